@@ -285,7 +285,8 @@ fn process_transactions(
                         symbol: common.symbol,
                         quantity,
                         price,
-                        expenses: fees_commissions.unwrap_or(Decimal::ZERO),
+                        // A fee spelled as a debit ("-$4.95") is still a fee of that size.
+                        expenses: fees_commissions.unwrap_or(Decimal::ZERO).abs(),
                         comment: None,
                     });
                 }
@@ -301,7 +302,8 @@ fn process_transactions(
                         symbol: common.symbol,
                         quantity,
                         price,
-                        expenses: fees_commissions.unwrap_or(Decimal::ZERO),
+                        // A fee spelled as a debit ("-$4.95") is still a fee of that size.
+                        expenses: fees_commissions.unwrap_or(Decimal::ZERO).abs(),
                     });
                 }
                 SchwabTransaction::CancelSell(trade) => {
